@@ -289,6 +289,11 @@ func (e *Engine) intrinsic(st *State, fr *Frame, name string, fn *ssa.Function, 
 		return &intrRes{c.Select(e.heapArr(e.rd(st), "chan.armed", smt.Bool), e.chanTermOf(st, args[0]))}, true
 	case "gvcArmed":
 		return &intrRes{c.Select(e.chLastSent(e.rd(st)), e.chanTermOf(st, args[0]))}, true
+	case "gvcMapHas":
+		mt := fn.Signature.Params().At(0).Type()
+		hk, _, m := e.mapKeys(mt)
+		key := e.asTerm(st, args[1], m.Key())
+		return &intrRes{c.Select(c.Select(e.heapArr(e.rd(st), hk, smt.Arr(key.Sort, smt.Bool)), args[0].(*smt.Term)), key)}, true
 	case "gvcModMap":
 		// all entries of the map object may change
 		mt := fn.Signature.Params().At(0).Type()
